@@ -90,10 +90,12 @@ REGISTRY = {
         replay=dict(script="replay/c08.py", args=["3"], timeout=600),
         bounded=[dict(name="cross-process-seed-and-order", script="replay/c08.py", args=["3"],
                       bound="25 values (nested dicts/sets, mixed keys, decimals, equal distinct strings) hashed in 6 fresh interpreters (3 PYTHONHASHSEEDs x 2 construction orders) "
-                            "against a reference process; 5 discrimination groups; all pairs of a recursive universe of ~1000 builtin values (equal digests <=> equal type-aware canonical form)")],
+                            "against a reference process; 5 discrimination groups; all pairs of a recursive universe of ~1000 builtin values (equal digests <=> equal type-aware canonical form)"),
+                 dict(name="numpy-hash-discrimination", script="replay/c08.py", args=["numpy"], timeout=900, python="/verif/.venv_np/bin/python",
+                      bound="~120 numpy values (10 dtypes x shapes / orders / views / 0-d / empty, empty shapes sharing bytes and strides, arrays of 5 KB - 1 MB differing in one late byte, object arrays, dtype objects, scalars, np.matrix, memmap with and without coerce_mmap): all pairs get different digests, equal copies and pickle round trips the same, 3 interpreter processes with different hash seeds agree")],
         trusted=["pickle._Pickler emits a stream that is a function of the tokens it is handed, injective incl. type tags", "md5 / sha1 collision-freeness",
                  "sorted(): canonical on strict total orders, TypeError when a comparison raises, input-order dependent on partial orders"],
-        assumptions=["induction hypothesis: joblib's own hash of a sub-value is a function of its abstract value", "NumpyHasher (array branch) is not under contract (C19 covers persistence, not hashing)"],
+        assumptions=["induction hypothesis: joblib's own hash of a sub-value is a function of its abstract value", "NumpyHasher.save is under contract at the level of what reaches the digest (all element bytes once through a contiguous view; dtype, shape, strides, class in the pickled stand-in); numpy's own view / flatten / transpose are external, and state an ndarray SUBCLASS keeps next to its buffer (a mask) is outside C08's universe"],
         undecided_clauses=["type discrimination of leaves is the base pickler's (assumed); the joblib-owned part is that no override maps two abstract values to one token sequence"],
     ),
     "C05": dict(
@@ -125,7 +127,8 @@ REGISTRY = {
     "C02": dict(
         packs=["mem", "c07", "c08", "xfl"], level="proof",
         replay=dict(script="replay/mem.py", args=["C02"], timeout=600),
-        bounded=[dict(name="hash-discrimination-all-pairs", script="replay/c08.py", args=["pairs"], timeout=600, bound="joblib.hash over a recursive universe of ~1000 builtin scalars / containers (depth 2): equal digests <=> equal type-aware canonical form, all pairs, md5 and sha1"), dict(name="audit-scenarios", script="replay/found.py", args=["C02", "{tier}"], timeout=1500, bound="scenarios contributed by audit sub-agents (replay/found/MANIFEST.json): repaired defects must stay repaired, recorded findings are probed"), dict(name="memory-scenarios", script="replay/mem.py", args=["C02"],
+        bounded=[dict(name="numpy-hash-discrimination", script="replay/c08.py", args=["numpy"], timeout=900, python="/verif/.venv_np/bin/python",
+                      bound="~120 numpy values (10 dtypes x shapes / orders / views / 0-d / empty, empty shapes sharing bytes and strides, arrays of 5 KB - 1 MB differing in one late byte, object arrays, dtype objects, scalars, np.matrix, memmap with and without coerce_mmap): all pairs get different digests, equal copies and pickle round trips the same, 3 interpreter processes with different hash seeds agree"), dict(name="hash-discrimination-all-pairs", script="replay/c08.py", args=["pairs"], timeout=600, bound="joblib.hash over a recursive universe of ~1000 builtin scalars / containers (depth 2): equal digests <=> equal type-aware canonical form, all pairs, md5 and sha1"), dict(name="audit-scenarios", script="replay/found.py", args=["C02", "{tier}"], timeout=1500, bound="scenarios contributed by audit sub-agents (replay/found/MANIFEST.json): repaired defects must stay repaired, recorded findings are probed"), dict(name="memory-scenarios", script="replay/mem.py", args=["C02"],
                       bound="call-form equivalence / redefinition / crash-state scenarios on a real cache directory (every truncation length of func_code.py, "
                             "missing or torn metadata and output, leftover temporaries, with and without expires_after); extract_first_line on every prefix"), dict(name="filter_args-vs-interpreter", script="replay/c07.py", args=["4"],
                           bound="every signature with <= 4 parameters x every call shape (31441 calls, 3591 accepted by Python)")],
